@@ -826,3 +826,4 @@ add("D10", "break", NB, "_group_func_wrap", _D10_OLD, "", name="D10 chunked valu
 add("D10", "break", NB, "_group_func_wrap", _D10_OLD, "        else:\n            values = list(values)\n", name="D10 chunked values as a plain list")
 add("D10", "keep", NB, "_group_func_wrap", _D10_OLD, "        else:\n            values = NumbaList(list(values))\n", name="D10 typed list built from a list")
 add("D10", "keep", NB, "_chunk_groupby_args", "if isinstance(values, NumbaList):", "if isinstance(values, (NumbaList, list, tuple)):", name="D10 dispatcher accepts the other containers too", also=[(NB, "_group_func_wrap", _D10_OLD, "")])
+add("U3", "keep", NB, "ScalarFuncs.sum", _m("    if count:\n"), _m("    if is_null(next_val) or (count and is_null(cur_sum)):\n        return (next_val if is_null(next_val) else cur_sum, count + 1)\n    if count:\n"), name="U3 repaired reducer: nulls handed on (silent, the known finding disappears)")
